@@ -189,12 +189,48 @@ class Reporter(object):
 
 
 # --------------------------------------------------------------------------- S2C: fills
-def replay_fills(ctx, rec, embs, report, tuples=False):
-    """Drive the real histogram / Histogram along one exported behaviour of Histogram.tla.
+class _Filled(object):
+    """one real histogram (structure or element) of a replayed behaviour"""
 
-    rec = {kind, edges (grid), fills: [{c, w, idx, bins, oor}]}.  Returns number of embeddings run.
+    def __init__(self, S, kind, edges_arg, init):
+        self.el = None
+        if kind == "structure":
+            self.hist = S.histogram(edges_arg) if init is None else S.histogram(edges_arg, initial_value=init)
+        else:
+            self.el = S.Histogram(edges_arg)
+            self.hist = list(self.el.compute())[0][0]
+        self.total = 0
+
+    def fill(self, coord, w, default_weight, j):
+        if self.el is None:
+            if default_weight:
+                self.hist.fill(coord)
+            else:
+                self.hist.fill(coord, w)
+        else:
+            self.el.fill(coord if j % 2 else (coord, {"n": j}))
+            self.hist = list(self.el.compute())[0][0]
+
+
+def bad_coordinate(form, base, j):
+    """a coordinate of the wrong dimension"""
+    if form == "listed":
+        return [base[0]]
+    if form == "empty":
+        return [] if j % 2 else ()
+    if form == "short":
+        return list(base[:-1])
+    return list(base) + [base[0]]
+
+
+def replay_fills(ctx, rec, embs, report, tuples=False, variant=0):
+    """Drive the real histogram(s) / Histogram along one exported behaviour of Histogram.tla.
+
+    rec = {kind, edges (grid), fills: [{c, w, idx, bins, oor, which, ok, bad}]}.  `which` = 2: a second histogram
+    constructed from the same edges object.  Returns number of embeddings run.
     """
     import lena.structures as S
+    from fractions import Fraction
     gedges = rec["edges"]
     dim = len(gedges)
     shape = [len(e) - 1 for e in gedges]
@@ -208,59 +244,80 @@ def replay_fills(ctx, rec, embs, report, tuples=False):
         edges_arg = real[0] if dim == 1 else real
         pristine = copy.deepcopy(edges_arg)
         where = "%s:dim=%d:%s" % (rec["kind"], dim, emb.name)
+        # contents and weights as Fractions (any object that supports addition with the weight)
+        fraction = rec["kind"] == "structure" and emb.name == "int" and variant % 4 == 1
+        wmul = Fraction(1, 3) if fraction else emb.wmul
+        objs = {}
         try:
-            if rec["kind"] == "structure":
-                hist = S.histogram(edges_arg)
-                el = None
-            else:
-                el = S.Histogram(edges_arg)
-                hist = None
+            for wh in sorted(set(f.get("which", 1) for f in rec["fills"]) | {1}):
+                objs[wh] = _Filled(S, rec["kind"], edges_arg, Fraction(0) if fraction else None)
         except Exception as exc:   # noqa
             report("construct:%s:raised:%s" % (where, exc_name(exc)), {"edges": repr(edges_arg)})
             continue
-        total = 0
         for j, f in enumerate(rec["fills"]):
-            cvals = [fs[d](f["c"][d]) for d in range(dim)]
-            coord = cvals[0] if dim == 1 else (tuple(cvals) if (j + len(emb.name)) % 2 else list(cvals))
-            w = f["w"] * emb.wmul
-            pos = "/".join(pos_class(f["c"][d], gedges[d]) for d in range(dim))
-            detail = {"embedding": emb.name, "edges": repr(edges_arg), "coord": repr(coord), "weight": repr(w),
-                      "fill_no": j, "spec": f, "kind": rec["kind"]}
-            try:
-                with watchdog(LIMIT):
-                    if el is None:
-                        if f["w"] == 1 and emb.wmul == 1 and j % 2:
-                            hist.fill(coord)              # default weight
-                        else:
-                            hist.fill(coord, w)
-                    else:
-                        w = 1
-                        el.fill(coord if j % 2 else (coord, {"n": j}))
-                        res = list(el.compute())
-                        hist = res[0][0]
-                    idx = S.get_bin_on_value(coord, edges_arg)
-                    idx1 = S.get_bin_on_value_1d(coord, edges_arg) if dim == 1 else None
-            except Exception as exc:   # noqa
-                report("fill:%s:%s:raised:%s" % (where, pos, exc_name(exc)), dict(detail, exception=repr(exc)))
-                break
-            total += w
-            mul = emb.wmul if el is None else 1
+            me = objs[f.get("which", 1)]
+            others = [o for wh, o in objs.items() if o is not me]
+            osnap = [copy.deepcopy((o.hist.bins, o.hist.n_out_of_range)) for o in others]
+            if not f.get("ok", True):
+                # a coordinate of the wrong dimension: LenaValueError, nothing changes, the histogram stays usable
+                base = [fs[d](gedges[d][0]) for d in range(dim)]
+                coord = bad_coordinate(f["bad"], base, j)
+                detail = {"embedding": emb.name, "edges": repr(edges_arg), "coord": repr(coord), "fill_no": j, "spec": f,
+                          "kind": rec["kind"]}
+                for what, call in (("fill", lambda: me.fill(coord, 1, j % 2 == 0, 1)),
+                                   ("get_bin_on_value", lambda: S.get_bin_on_value(coord, edges_arg))):
+                    try:
+                        with watchdog(LIMIT):
+                            call()
+                        got = "no-exception"
+                    except Exception as exc:   # noqa
+                        got = exc_name(exc)
+                    if got != "LenaValueError":
+                        report("%s:wrong-dimension:%s:%s:%s" % (what, where, f["bad"], got), detail)
+                hist = me.hist
+                pos = "wrong-dimension"
+                mul = wmul if me.el is None else 1
+            else:
+                cvals = [fs[d](f["c"][d]) for d in range(dim)]
+                coord = cvals[0] if dim == 1 else (tuple(cvals) if (j + len(emb.name)) % 2 else list(cvals))
+                csnap = copy.copy(coord)
+                w = f["w"] * wmul
+                pos = "/".join(pos_class(f["c"][d], gedges[d]) for d in range(dim))
+                detail = {"embedding": emb.name, "edges": repr(edges_arg), "coord": repr(coord), "weight": repr(w),
+                          "fill_no": j, "spec": f, "kind": rec["kind"]}
+                try:
+                    with watchdog(LIMIT):
+                        if me.el is not None:
+                            w = 1
+                        me.fill(coord, w, f["w"] == 1 and wmul == 1 and j % 2 == 1, j)
+                        idx = S.get_bin_on_value(coord, edges_arg)
+                        idx1 = S.get_bin_on_value_1d(coord, edges_arg) if dim == 1 else None
+                except Exception as exc:   # noqa
+                    report("fill:%s:%s:raised:%s" % (where, pos, exc_name(exc)), dict(detail, exception=repr(exc)))
+                    break
+                me.total += w
+                hist = me.hist
+                mul = wmul if me.el is None else 1
+                if list(idx) != f["idx"] or (idx1 is not None and idx1 != f["idx"][0]):
+                    report("get_bin_on_value:%s:%s" % (where, pos), dict(detail, observed=repr(idx)))
+                if coord != csnap:
+                    report("fill:%s:coordinate-argument-modified" % where, detail)
             exp_bins = scale_nested(f["bins"], mul)
             exp_oor = f["oor"] * mul
-            detail["observed"] = {"bins": repr(hist.bins), "n_out_of_range": repr(hist.n_out_of_range),
-                                  "idx": repr(idx)}
-            if list(idx) != f["idx"] or (idx1 is not None and idx1 != f["idx"][0]):
-                report("get_bin_on_value:%s:%s" % (where, pos), detail)
+            detail["observed"] = {"bins": repr(hist.bins), "n_out_of_range": repr(hist.n_out_of_range)}
             if not shape_ok(hist.bins, shape) or hist.bins != exp_bins:
                 report("fill:%s:%s:bins" % (where, pos), detail)
                 break
             if hist.n_out_of_range != exp_oor:
                 report("fill:%s:%s:n_out_of_range" % (where, pos), detail)
                 break
-            if sum(flat(hist.bins)) + hist.n_out_of_range != total:
+            if sum(flat(hist.bins)) + hist.n_out_of_range != me.total:
                 report("fill:%s:%s:conservation" % (where, pos), detail)
             if hist.edges != pristine or edges_arg != pristine:
                 report("fill:%s:%s:edges-changed" % (where, pos), detail)
+                break
+            if [copy.deepcopy((o.hist.bins, o.hist.n_out_of_range)) for o in others] != osnap:
+                report("fill:%s:%s:other-histogram-on-the-same-edges-changed" % (where, pos), detail)
                 break
     return len(embs)
 
